@@ -1,12 +1,15 @@
 (* C20 — experiments and tomographies accept exactly the well-formed schedules: property theorems only.
-   Model: Model/C20_Schedule.v (validation, setters, calc_prob_dist prologue, tomography constructors),
-          Model/C20_Run.v (reference semantics of executing a schedule).
+   Model: Model/C20_Schedule.v (validation, setters, calc_prob_dist prologue, tomography constructors) — the code WITH the
+          repairs fixes/c20-noniterable-schedule.diff and fixes/c20-qmpt-schedule-length.diff; this is the model the
+          harness executes against the implementation,
+          Model/C20_Run.v (reference semantics of executing a schedule),
+          Model/C20_PreFix.v (the code as it was before the two repairs; only the last section is about it).
    Specification predicates (well_formed, order_ok, item_ok, class_shape, ...): Proofs/C20_Schedule.v, Proofs/C20_Tomo.v.
    Schedule lists have ANY length, items are ANY python values (abstracted by exact type), lists have ANY sizes. *)
 From Coq Require Import ZArith List Bool String QArith Qcanon.
 From QV.Core Require Import OF QcOF Sums Mat.
-From QV.Model Require Import C20_Schedule C20_Run.
-From QV.Proofs Require Import C20_Schedule C20_Tomo C20_Run.
+From QV.Model Require Import C20_Schedule C20_Run C20_PreFix.
+From QV.Proofs Require Import C20_Schedule C20_Tomo C20_Run C20_PreFix.
 Import ListNotations.
 
 (* ---------------------------------------------------------------- Experiment: acceptance *)
@@ -18,14 +21,20 @@ Proof. exact experiment_accepts_iff. Qed.
 Print Assumptions C20_experiment_accepts_iff.
 
 (* ---------------------------------------------------------------- Experiment: which error *)
-(* schedule-ITEM error <-> the first schedule that is not well formed contains a value that is not a well-typed
-   in-range item (or is a non-iterable value in a non-first position) *)
+(* schedule-ITEM error for an item <-> the first schedule that is not well formed is a sequence containing a value that
+   is not a well-typed in-range item *)
 Theorem C20_item_error_iff : forall c ss,
   (exists i j e, validate_schedules c ss = VItemError i j e) <->
-  (exists pre s post, ss = pre ++ s :: post /\ Forall (well_formed c) pre /\
-                      (has_bad_item c s \/ (s = SNonIter /\ pre <> []))).
+  (exists pre s post, ss = pre ++ s :: post /\ Forall (well_formed c) pre /\ has_bad_item c s).
 Proof. exact item_error_iff. Qed.
 Print Assumptions C20_item_error_iff.
+(* schedule-ITEM error for a whole schedule <-> the first schedule that is not well formed is a non-iterable value,
+   in ANY position *)
+Theorem C20_noniter_error_iff : forall c ss,
+  (exists i, validate_schedules c ss = VNonIter i) <->
+  (exists pre post, ss = pre ++ SNonIter :: post /\ Forall (well_formed c) pre).
+Proof. exact noniter_error_iff. Qed.
+Print Assumptions C20_noniter_error_iff.
 
 (* schedule-ORDER error <-> the first schedule that is not well formed has only well-typed in-range items
    but breaks an order rule *)
@@ -41,12 +50,13 @@ Theorem C20_validate_schedules_spec : forall c ss,
   match validate_schedules c ss with
   | VOk => Forall (well_formed c) ss
   | VItemError i j e =>
-      exists pre s post, ss = pre ++ s :: post /\ i = List.length pre /\ Forall (well_formed c) pre /\
-        ((exists items, s = SSeq items /\ first_bad_item c items j e) \/ (s = SNonIter /\ pre <> [] /\ e = TypeError))
+      exists pre items post, ss = pre ++ SSeq items :: post /\ i = List.length pre /\ Forall (well_formed c) pre /\
+        first_bad_item c items j e
+  | VNonIter i =>
+      exists pre post, ss = pre ++ SNonIter :: post /\ i = List.length pre /\ Forall (well_formed c) pre
   | VOrderError i r =>
       exists pre t post, ss = pre ++ sched_of t :: post /\ i = List.length pre /\ Forall (well_formed c) pre /\
         Forall (in_range c) t /\ ~ order_ok t /\ validate_order t = Some r
-  | VUnbound i => i = 0%nat /\ exists post, ss = SNonIter :: post
   end.
 Proof. exact validate_schedules_spec. Qed.
 Print Assumptions C20_validate_schedules_spec.
@@ -64,26 +74,14 @@ Theorem C20_order_rule_reported : forall s r, validate_order s = Some r ->
 Proof. exact validate_order_reason. Qed.
 Print Assumptions C20_order_rule_reported.
 
-(* every list of ITERABLE schedules is accepted or rejected with one of the two schedule errors ... *)
-Theorem C20_rejected_with_item_or_order_error : forall c ss, Forall is_seq ss ->
-  validate_schedules c ss = VOk \/ (exists i j e, validate_schedules c ss = VItemError i j e) \/
-  (exists i r, validate_schedules c ss = VOrderError i r).
-Proof. exact rejected_with_item_or_order_error. Qed.
-Print Assumptions C20_rejected_with_item_or_order_error.
-
-(* ... FULL statement of the property ("anything else is rejected with the schedule-item or schedule-order error"):
-     forall c ss, validate_schedules c ss = VOk \/ (exists i j e, ... = VItemError i j e) \/ (exists i r, ... = VOrderError i r)
-   It is FALSE of the faithful model: a non-iterable value as first schedule escapes with UnboundLocalError
-   (finding C20-2); exactly these inputs do: *)
-Theorem C20_noniterable_first_schedule_refuted :
-  exists c ss, validate_schedules c ss <> VOk /\ (forall i j e, validate_schedules c ss <> VItemError i j e) /\
-               (forall i r, validate_schedules c ss <> VOrderError i r).
-Proof. exact noniterable_first_schedule_refuted. Qed.
-Print Assumptions C20_noniterable_first_schedule_refuted.
-Theorem C20_unbound_iff : forall c ss,
-  (exists i, validate_schedules c ss = VUnbound i) <-> exists post, ss = SNonIter :: post.
-Proof. exact unbound_iff. Qed.
-Print Assumptions C20_unbound_iff.
+(* THE PROPERTY's first sentence, for ALL inputs (schedule lists of any length, schedules that are sequences of any
+   python values or not iterable at all, lists of any sizes): accepted exactly when every schedule is well formed;
+   anything else is rejected with the schedule-item or the schedule-order error *)
+Theorem C20_accepted_or_item_or_order_error : forall c ss,
+  (Forall (well_formed c) ss /\ validate_schedules c ss = VOk) \/
+  (~ Forall (well_formed c) ss /\ (is_item_error (validate_schedules c ss) \/ is_order_error (validate_schedules c ss))).
+Proof. exact accepted_or_item_or_order_error. Qed.
+Print Assumptions C20_accepted_or_item_or_order_error.
 
 (* None placeholders count like objects: validation depends on the list LENGTHS only *)
 Theorem C20_validation_ignores_placeholders : forall c c' ss, same_sizes c c' ->
@@ -149,34 +147,16 @@ Proof. exact @accepted_povm_schedule_normalised. Qed.
 Print Assumptions C20_accepted_povm_schedule_normalised.
 
 (* ---------------------------------------------------------------- tomography classes *)
-(* StandardQst / StandardPovmt / StandardQpt accept exactly the schedule lists of their own shape *)
-Theorem C20_tomo_accepts_iff_shape : forall t ns np ss, t <> Qmpt ->
-  (tomo_construct t ns np (AList ss) = TOk <-> Forall (class_shape t ns np) ss).
+(* StandardQst / StandardPovmt / StandardQpt / StandardQmpt accept exactly the schedule lists of their own shape *)
+Theorem C20_tomo_accepts_iff_shape : forall t ns np ss,
+  tomo_construct t ns np (AList ss) = TOk <-> Forall (class_shape t ns np) ss.
 Proof. exact tomo_accepts_iff_shape. Qed.
 Print Assumptions C20_tomo_accepts_iff_shape.
-
-(* all four accept every schedule list of their own shape *)
-Theorem C20_tomo_accepts_shape : forall t ns np ss,
-  Forall (class_shape t ns np) ss -> tomo_construct t ns np (AList ss) = TOk.
-Proof. exact tomo_accepts_shape. Qed.
-Print Assumptions C20_tomo_accepts_shape.
-
-(* FULL statement for StandardQmpt:  tomo_construct Qmpt ns np (AList ss) = TOk <-> Forall (class_shape Qmpt ns np) ss.
-   It is FALSE of the faithful model (finding C20-1, DESIGN 4 #17): *)
-Theorem C20_qmpt_accepts_longer_schedule_refuted :
-  exists ns np s, tomo_construct Qmpt ns np (AList [s]) = TOk /\ ~ class_shape Qmpt ns np s.
-Proof. exact qmpt_accepts_longer_schedule_refuted. Qed.
-Print Assumptions C20_qmpt_accepts_longer_schedule_refuted.
-(* what it accepts instead: its shape followed by any number of ("mprocess", 0) items *)
-Theorem C20_qmpt_accepts_iff : forall ns np ss,
-  tomo_run Qmpt ns np ss = TOk <-> Forall (qmpt_accepted_shape ns np) ss.
-Proof. exact qmpt_accepts_iff. Qed.
-Print Assumptions C20_qmpt_accepts_iff.
-(* and [state i, mprocess 0] is rejected by running off the end of the schedule (IndexError, not ValueError) *)
-Theorem C20_qmpt_short_schedule_index_error : forall ns np i, (0 <= i < Z.of_nat ns)%Z ->
-  tomo_construct Qmpt ns np (AList [sched_of [(KState, i); (KMprocess, 0%Z)]]) = TGuardIndexError 0.
-Proof. exact qmpt_short_schedule_index_error. Qed.
-Print Assumptions C20_qmpt_short_schedule_index_error.
+(* and no IndexError escapes from a class guard (every rejection is the Experiment's item / order error or the guard's
+   ValueError) *)
+Theorem C20_tomo_no_index_error : forall t ns np ss i, tomo_construct t ns np (AList ss) <> TGuardIndexError i.
+Proof. exact tomo_no_index_error. Qed.
+Print Assumptions C20_tomo_no_index_error.
 
 (* schedules="all": accepted, consists of schedules of the class shape, and contains every one of them;
    any other string is rejected by _validate_schedules_str *)
@@ -198,6 +178,49 @@ Theorem C20_class_shapeb_iff : forall t ns np s, class_shapeb t ns np s = true <
 Proof. exact class_shapeb_iff. Qed.
 Print Assumptions C20_class_shapeb_iff.
 
+(* ---------------------------------------------------------------- the code as it was BEFORE the two repairs
+   (Model/C20_PreFix.v: validate_schedules0, tomo_run0 — NOT what the harness compares the implementation with; the harness
+   consults these definitions only to recognise that a disagreement is exactly one of the two recorded defects) *)
+(* before fix c20-noniterable-schedule the statement  forall c ss, exists r, validate_schedules0 c ss = V0 r  ("accepted or
+   rejected with the item / order error") was FALSE (finding C20-2): *)
+Theorem C20_noniterable_first_schedule_before_fix_refuted : exists c ss, forall r, validate_schedules0 c ss <> V0 r.
+Proof. exact noniterable_first_schedule_before_fix_refuted. Qed.
+Print Assumptions C20_noniterable_first_schedule_before_fix_refuted.
+(* exactly the inputs whose first schedule is not iterable escaped with UnboundLocalError ... *)
+Theorem C20_before_fix_unbound_iff : forall c ss,
+  (exists i, validate_schedules0 c ss = V0Unbound i) <-> exists post, ss = SNonIter :: post.
+Proof. exact before_fix_unbound_iff. Qed.
+Print Assumptions C20_before_fix_unbound_iff.
+(* ... and that (plus the stale item number in the message for later non-iterable schedules) is the whole difference *)
+Theorem C20_before_fix_relation : forall c ss,
+  match validate_schedules c ss with
+  | VNonIter k => (k = 0%nat /\ validate_schedules0 c ss = V0Unbound 0) \/
+                  (exists j, validate_schedules0 c ss = V0 (VItemError k j TypeError))
+  | r => validate_schedules0 c ss = V0 r
+  end.
+Proof. exact before_fix_relation. Qed.
+Print Assumptions C20_before_fix_relation.
+(* before fix c20-qmpt-schedule-length the statement  tomo_run0 Qmpt ns np ss = TOk <-> Forall (class_shape Qmpt ns np) ss
+   was FALSE (finding C20-1, DESIGN 4 #17): *)
+Theorem C20_qmpt_before_fix_accepts_longer_schedule_refuted :
+  exists ns np s, tomo_run0 Qmpt ns np [s] = TOk /\ ~ class_shape Qmpt ns np s.
+Proof. exact qmpt_before_fix_accepts_longer_schedule_refuted. Qed.
+Print Assumptions C20_qmpt_before_fix_accepts_longer_schedule_refuted.
+(* what it accepted instead: its shape followed by any number of ("mprocess", 0) items *)
+Theorem C20_qmpt_before_fix_accepts_iff : forall ns np ss,
+  tomo_run0 Qmpt ns np ss = TOk <-> Forall (qmpt_accepted_shape0 ns np) ss.
+Proof. exact qmpt_before_fix_accepts_iff. Qed.
+Print Assumptions C20_qmpt_before_fix_accepts_iff.
+(* and [state i, mprocess 0] was rejected by running off the end of the schedule (IndexError, not ValueError) *)
+Theorem C20_qmpt_before_fix_short_schedule_index_error : forall ns np i, (0 <= i < Z.of_nat ns)%Z ->
+  tomo_run0 Qmpt ns np [sched_of [(KState, i); (KMprocess, 0%Z)]] = TGuardIndexError 0.
+Proof. exact qmpt_before_fix_short_schedule_index_error. Qed.
+Print Assumptions C20_qmpt_before_fix_short_schedule_index_error.
+(* the other three classes are untouched by the repair *)
+Theorem C20_other_classes_unchanged : forall t ns np ss, t <> Qmpt -> tomo_run0 t ns np ss = tomo_run t ns np ss.
+Proof. exact other_classes_unchanged. Qed.
+Print Assumptions C20_other_classes_unchanged.
+
 (* ---------------------------------------------------------------- non-vacuity *)
 Definition ex_cfg : cfg := mkcfg [true] [true; false] [true; true] [true].
 Definition ex_good : list rsched :=
@@ -208,8 +231,10 @@ Example C20_example_errors :
   validate_schedules ex_cfg (ex_good ++ [SSeq [raw (KState, 0%Z); PTuple [PStr "povm"; PBool true]]]) = VItemError 2 1 TypeError /\
   validate_schedules ex_cfg (ex_good ++ [sched_of [(KState, 0); (KPovm, 0); (KPovm, 1)]%Z]) = VOrderError 2 TooManyPovms /\
   validate_schedules ex_cfg [sched_of [(KState, 0); (KPovm, 2)]%Z] = VItemError 0 1 IndexError /\
-  validate_schedules ex_cfg [SNonIter] = VUnbound 0 /\
-  validate_schedules ex_cfg (ex_good ++ [SNonIter]) = VItemError 2 1 TypeError.
+  validate_schedules ex_cfg [SNonIter] = VNonIter 0 /\
+  validate_schedules ex_cfg (ex_good ++ [SNonIter]) = VNonIter 2 /\
+  validate_schedules0 ex_cfg [SNonIter] = V0Unbound 0 /\
+  validate_schedules0 ex_cfg (ex_good ++ [SNonIter]) = V0 (VItemError 2 1 TypeError).
 Proof. repeat split; reflexivity. Qed.
 (* shrinking the POVM list under a schedule that uses povms[1] is rejected and changes nothing; growing it is fine *)
 Example C20_example_setters :
@@ -223,7 +248,10 @@ Example C20_example_shapes :
   class_shape Qpt 2 3 (sched_of [(KState, 1); (KGate, 0); (KPovm, 2)]%Z) /\
   class_shape Qmpt 2 3 (sched_of [(KState, 1); (KMprocess, 0); (KPovm, 2)]%Z) /\
   tomo_construct Qpt 2 3 (AList [sched_of [(KState, 1); (KPovm, 2)]%Z]) = TGuardValueError 0 /\
-  tomo_construct Qst 1 3 (AList [sched_of [(KState, 0); (KGate, 0); (KPovm, 2)]%Z]) = TExp (VItemError 0 1 IndexError).
+  tomo_construct Qst 1 3 (AList [sched_of [(KState, 0); (KGate, 0); (KPovm, 2)]%Z]) = TExp (VItemError 0 1 IndexError) /\
+  tomo_construct Qmpt 2 3 (AList [sched_of [(KState, 1); (KMprocess, 0); (KPovm, 2); (KMprocess, 0)]%Z]) = TGuardValueError 0 /\
+  tomo_construct Qmpt 2 3 (AList [sched_of [(KState, 1); (KMprocess, 0)]%Z]) = TGuardValueError 0 /\
+  tomo_run0 Qmpt 2 3 [sched_of [(KState, 1); (KMprocess, 0); (KPovm, 2); (KMprocess, 0)]%Z] = TOk.
 Proof. repeat split; try reflexivity; apply class_shapeb_iff; reflexivity. Qed.
 (* a physical instance over Qc (a classical bit: n = 2, trace functional (1,1), bit-flip gate, the two projections as
    measurement process and as POVM) and the distribution of [state 0; gate 0; mprocess 0; povm 0] *)
